@@ -11,7 +11,9 @@ SYS = ("Whole sessions are simulated from the REAL DSession/scheduler/WorkerCont
        "Model/System.v on online-generated schedules (crashes included); property monitors on the implementation give the concrete failing schedule. ")
 CHECKS = {
  "C01": dict(text=SYS + "Proved (all states): every scheduler operation conserves the test indices and sends exactly what it books (load, worksteal, loadscope family); "
-             "the worker runs exactly the assigned, not-withdrawn entries in order (C05). The system-level 'exactly once' composition is a monitor + design argument, not yet one Coq theorem: partial.",
+             "the worker runs exactly the assigned, not-withdrawn entries in order (C05). SYSTEM level (Proofs/ExactlyOnce.v, --dist load, every configuration and every schedule without worker failure): "
+             "no index is ever started twice on any worker (NoDup over pool ++ wires ++ inboxes ++ queues ++ popped entries), whatever starts was popped from its worker's queue and belongs to the agreed collection. "
+             "Partial: the system-level theorem covers load; worksteal/loadscope have the per-operation conservation laws; completeness at session end is the conjunction of worker completeness at the marker and tests_finished, not one theorem.",
              design="5/C01", technique=TECH),
  "C02": dict(text=SYS + "Proved (all states): each scheduling decision leaves the node with >=2 tests, a shutdown, an owed steal answer or an empty pool; tests_finished => shutdown triggered; "
              "a worker with a successor can always step. Composition into 'no reachable stuck state' is searched by the stuck-state monitor: partial.", design="5/C02", technique=TECH),
@@ -49,10 +51,12 @@ CHECKS = {
  "C17": dict(text=SYS + "Deaths are injected at every lifecycle point; any controller exception other than the documented 'no active workers' exit, any stuck state and any budget violation is reported with its schedule. "
              "Proofs: the restart budget and crash-report theorems (C10, C03) hold for every event sequence incl. events of unknown nodes; a general 'never raises' theorem is not proved: partial.", design="5/C17", technique=TECH),
  "C18": dict(text="Model of StatRecorder.check (visit filters, cache bookkeeping, duplicate/nested roots) and of the failure memory, compared with the real classes on a real temp directory with explicit mtimes; "
-             "an independent set-difference oracle checks 'changed iff the watched set changed' on every poll. Proved so far: the failure-memory theorems; the watcher's spec theorem is in preparation: partial.",
+             "an independent set-difference oracle checks 'changed iff the watched set changed' on every poll. Proved (Proofs/StatRecProofs.v) for every snapshot and ANY root list: a poll reports a change iff the map path->(mtime,size) of watched files differs from the cache "
+             "(created, deleted, mtime or size different in either direction), the new cache is the watched set, a second poll on the same snapshot reports nothing, the cache never holds a path twice; plus the failure-memory theorems.",
              design="5/C18", technique=TECH),
  "C19": dict(text="Models of make_reltoroot (lexical paths, '::' selectors, exists oracle), fnmatch matching and HostRSync.filter, and the spec decisions; compared with the real functions on a real temp tree and "
-             "generated patterns. Proved: local popen never synchronises, non-existing args unchanged, outside roots rejected, rewriting formula; glob theorems in preparation: partial.", design="5/C19", technique=TECH),
+             "generated patterns. Proved (Proofs/RsyncProofs.v, PureProofs.v): local popen never synchronises, non-existing args unchanged, outside roots rejected, first containing root, containment by path components, "
+             "selectors preserved ('::' join/split round trip), rewriting formula; the glob matcher is sound and complete for a declarative glob relation, default patterns exclude exactly dot-names/.pyc/.pyo/~, an entry is transferred iff no pattern matches its base name or full path.", design="5/C19", technique=TECH),
 }
 NOT_YET = {}
 def main():
